@@ -53,10 +53,16 @@ def make_handler(name):
             return [{"parameters": {"echo": "y" * int((p or {}).get("n", 0)), "svc": name}}, "close"]
         if m == name + ".Upgrade":
             state["echo"] = lambda b: b.swapcase()
+            state["banner"] = banner_bytes(int((p or {}).get("banner", 0)))
             return ("upgrade", {"parameters": {}})
         return [{"error": "org.varlink.service.MethodNotFound", "parameters": {"method": m}}]
 
     return h
+
+
+def banner_bytes(n):
+    """what an upgraded service that speaks first sends right behind its upgrade reply (same write)"""
+    return bytes(65 + (i * 7) % 26 for i in range(n))
 
 
 def direct(address, req, timeout=10):
@@ -401,6 +407,9 @@ def case(ctx, mode, cmd, seq, beh, pay, same_write, table, resolver, std_addr, s
     if pay is not None:
         up_iface = "org.example.a" if mode.startswith("connect") else "org.example.c"
         up_req = {"method": ((up_iface + ".Upgrade") if multi else "org.verif.t.Upgrade"), "upgrade": True, "parameters": ({} if multi else {"token": "up"})}
+        if multi and rng.chance(1, 2):
+            # the service speaks first: a greeting of this many bytes follows its upgrade reply in the same write
+            up_req["parameters"] = {"banner": rng.pick([1, 17, 300, 1000, 8000, 8192, 20000])}
     targets = len(set(n for n, _ in seq))
     desc = {"mode": mode, "behaviour": beh, "requests": [r for _, r in seq], "upgrade_payload": (len(pay) if pay is not None else None), "payload_in_same_write": same_write}
     ctx.case((mode, json.dumps(desc["requests"], sort_keys=True)[:400], beh, desc["upgrade_payload"], same_write) if (targets >= 2 or pay is not None) else None)
@@ -477,13 +486,16 @@ def case(ctx, mode, cmd, seq, beh, pay, same_write, table, resolver, std_addr, s
                 for k in range(0, len(pay), 7000):
                     b.write(pay[k:k + 7000])
             if multi:
-                want_echo = pay.swapcase()
+                want_echo = banner_bytes(int(up_req["parameters"].get("banner", 0))) + pay.swapcase()
             else:
                 # the standard service acknowledges complete lines only
                 want_echo = b"".join(b"ack:" + l for l in pay.split(b"\n")[:-1] if True) if b"\n" in pay else b""
                 want_echo = b"".join(b"ack:" + l + b"\n" for l in pay.split(b"\n")[:-1])
             echo = b.read_bytes(len(want_echo), timeout=15)
             cls = "payload-in-same-write" if same_write else "payload-after-reply"
+            if up_req["parameters"].get("banner"):
+                cls += ":service-speaks-first"
+                ctx.count("upgraded_sessions_where_the_service_speaks_first")
             if echo != want_echo:
                 recv = svcs[upkey(mode)].raw() if multi else None
                 ctx.violation("c18:%s:upgraded-bytes-wrong:%s" % (mode, cls), dict(wit, message="client received %d of %d expected upgraded bytes; first bytes %r; service received %s of %d payload bytes" % (len(echo), len(want_echo), echo[:60], (len(recv) if recv is not None else "?"), len(pay)), stderr=b.err.decode("utf-8", "replace")[-800:]))
